@@ -7,6 +7,14 @@ import sys
 LEVEL = "model_checking"
 
 NS = "c37"
+# namespace inference for functions defined in THIS module (the wrappers' inner functions are): a wrapped task must keep its own
+# namespace - also the empty one - and never be re-namespaced from the wrapper's module
+redun_namespace = "c37_wrapper_module"
+NSOF = {"f": NS, "g": NS, "e": ""}  # task "e" lives in the empty namespace
+
+
+def full(name):
+    return f"{NSOF[name]}.{name}" if NSOF[name] else name
 
 
 def alphabet():
@@ -16,6 +24,8 @@ def alphabet():
             ops.append(("define", name, body))
         for w in ("w1", "w2"):
             ops.append(("wrap", name, w))
+    ops.append(("define", "e", 0))
+    ops.append(("wrap", "e", "w1"))
     ops.append(("define_same_hash", "f", "g"))  # two names, identical hash impossible (name is hashed) -> same source different name
     return ops
 
@@ -44,7 +54,7 @@ class Model:
         out = {}
         for name, st in self.visible.items():
             ws = st["wrappers"]
-            out[f"{NS}.{name}"] = ("visible", name, len(ws))
+            out[full(name)] = ("visible", name, len(ws))
         return out
 
 
@@ -67,9 +77,9 @@ def replay(hist):
                 if op[0] == "define":
                     def fn(x):
                         return x
-                    task(name=op[1], namespace=NS, source=f"def {op[1]}(x): return x + {op[2]}")(fn)
+                    task(name=op[1], namespace=NSOF[op[1]], source=f"def {op[1]}(x): return x + {op[2]}")(fn)
                 elif op[0] == "wrap":
-                    cur = reg.get(f"{NS}.{op[1]}")
+                    cur = reg.get(full(op[1]))
 
                     @wraps_task(wrapper_name=op[2])
                     def wrapper(inner):
@@ -115,9 +125,9 @@ def invariants(reg, m, hist):
         if reg.get(hash=t.hash) is None:
             out.append(("hash-lookup", f"get(hash) fails for {t.fullname}"))
     for name, st in m.visible.items():
-        vis = reg.get(f"{NS}.{name}")
+        vis = reg.get(full(name))
         if vis is None:
-            out.append(("visible-name-lost", f"{NS}.{name} not in registry after {hist}"))
+            out.append(("visible-name-lost", f"{full(name)} not in registry after {hist}"))
             continue
         ws = st["wrappers"]
         # walk the wrapped_task chain: each layer must resolve, and keep the short name
@@ -131,10 +141,10 @@ def invariants(reg, m, hist):
                 out.append(("wrapped-task-renamed", f"{nxt.fullname} lost its name {name}"))
             cur, depth = nxt, depth + 1
         if depth != len(ws):
-            out.append(("wrapper-chain-length", f"{NS}.{name}: chain {depth}, expected {len(ws)}"))
+            out.append(("wrapper-chain-length", f"{full(name)}: chain {depth}, expected {len(ws)}"))
         if ws:
             exp_inner_ns = NS + "." + ".".join(reversed(ws)) if False else None
-            if not cur.namespace.startswith(NS + ".") or cur.namespace.split(".")[-1] not in ws:
+            if not cur.namespace.startswith((NSOF[name] + ".") if NSOF[name] else tuple(ws)) or cur.namespace.split(".")[-1] not in ws:
                 out.append(("inner-namespace", f"innermost task of {name} lives in '{cur.namespace}', wrappers {ws}"))
     return out
 
@@ -181,7 +191,7 @@ def run(ctx):
         "states": len(seen), "transitions": transitions, "traces_validated_against_impl": transitions,
         "max_depth": L, "alphabet_size": len(ops), "exhaustive": True,
         "rule": f"BFS over all histories of <= {L} operations (define f/g with body 0/1 incl. redefinition, wrap f/g with wrapper w1/w2 incl. "
-        "double wrapping, define a third task) on a fresh TaskRegistry swapped in for the global one; states merged on (fullname->hash map, hash "
+        "double wrapping, define / wrap a task in the EMPTY namespace with a wrapper whose module declares a redun_namespace, define a third task) on a fresh TaskRegistry swapped in for the global one; states merged on (fullname->hash map, hash "
         "counts, reference wrapper stacks); invariants after every operation: task_hashes == hashes of held tasks, counts exact and >= 1, lookup "
         "by fullname/hash, wrapper chain resolves and keeps the visible name",
         "samples": samples or ["()"],
